@@ -1677,18 +1677,19 @@ class TaskEventsManager():
         # update job in database
         # NOTE: the job must be added to the DB earlier so that Cylc can
         # reconnect with job submissions if the scheduler is restarted
-        self.workflow_db_mgr.put_update_task_jobs(
-            itask,
-            {
-                'submit_status': submit_status,
-                'time_submit_exit': event_time,
-                'job_id': itask.summary.get('submit_method_id'),
-                # NOTE: the platform name may have changed since task
-                # preparation started due to intelligent host (and or
-                # platform) selection
-                'platform_name': itask.platform['name'],
-            },
-        )
+        job_update = {
+            'submit_status': submit_status,
+            'time_submit_exit': event_time,
+            'job_id': itask.summary.get('submit_method_id'),
+        }
+        if 'name' in itask.platform:
+            # NOTE: the platform name may have changed since task
+            # preparation started due to intelligent host (and or
+            # platform) selection
+            # (A transient proxy made for a message from an orphaned job
+            # has no platform: keep the name already in the DB.)
+            job_update['platform_name'] = itask.platform['name']
+        self.workflow_db_mgr.put_update_task_jobs(itask, job_update)
 
     def _setup_job_logs_retrieval(self, itask, event) -> None:
         """Set up remote job logs retrieval.
